@@ -101,3 +101,20 @@ Lemma handshake_example :
   ws_handshake false ascii_req =
   HsOk (Some [47; 119; 115]) true (hs_proto_0 ++ rfc_accept ++ hs_proto_1 ++ s_base64 ++ hs_proto_2).
 Proof. vm_compute. reflexivity. Qed.
+
+(* refusal: without a version (or version 0), without a key, or without path / host / origin, whatever else the
+   request contained *)
+Lemma hs_finish_refuses : forall st,
+  hs_version st = 0 \/ hs_key st = None \/ hs_path st = None \/ hs_host st = None \/
+  (hs_origin st = None /\ hs_sorigin st = None) ->
+  hs_finish st = HsFail (hs_wspath st).
+Proof.
+  intros st H. unfold hs_finish.
+  destruct (hs_version st =? 0) eqn:Ev; [reflexivity|]. apply Z.eqb_neq in Ev.
+  destruct H as [H|H]; [contradiction|].
+  unfold hs_field. destruct (hs_key st) as [k|] eqn:Ek; [|reflexivity].
+  destruct H as [H|H]; [discriminate|].
+  destruct H as [H|[H|[H1 H2]]]; rewrite ?H, ?H1, ?H2; cbn [is_some andb orb negb]; try reflexivity.
+  - destruct (is_some (hs_path st)); reflexivity.
+  - destruct (is_some (hs_path st)); destruct (is_some (hs_host st)); reflexivity.
+Qed.
